@@ -31,7 +31,11 @@ OBLIGATIONS += [
     a2("seq_of_int_capacity", "h_seq_of_int_capacity", "SEQUENCE OF int decoder never writes more than max_nums", defs=["-DMAXN=3"], bounds="capacity 3, arbitrary 17-byte input"),
     a2("seq_of_int_roundtrip", "h_seq_of_int_roundtrip", "SEQUENCE OF int round trip (2 elements, all values)", bounds="2 elements"),
     a2("types_get_item", "h_types_get_item", "asn1_types_get_item_by_index returns item #index", bounds="2 items"),
-    a2("utf8", "h_utf8", "UTF-8 validator = structural well-formedness, multi-byte accepted", defs=["-DSMAX=5"], bounds="strings of 1..5 bytes"),
+] + [
+    a2("utf8.n%d" % n, "h_utf8", "UTF-8 validator = structural well-formedness (lead/continuation bytes), multi-byte characters accepted",
+       defs=["-DSMIN=%d" % n, "-DSMAX=%d" % n], bounds="strings of %d bytes, all contents" % n, tier="quick" if n <= 4 else "thorough", timeout=1500)
+    for n in (1, 2, 3, 4, 5, 6)
+] + [
     a2("printable_ia5", "h_printable_ia5", "PrintableString / IA5String validators = X.680 character sets", bounds="3-character strings (per-character predicate)"),
     a2("case_ignore_match", "h_case_ignore_match", "printable case-ignore match compares every character", bounds="3-character strings without spaces"),
     a2("time_roundtrip", "h_time_roundtrip", "asn1_time_from_str(asn1_time_to_str(t)) = t", defs=["-DTMAX=0xffffffffULL"], unwind=140, backends=["cadical", "kissat", "minisat"], timeout=1500,
